@@ -1,4 +1,5 @@
 import ast
+import copy
 from contextlib import suppress
 from dataclasses import dataclass, field
 from typing import ClassVar, NoReturn
@@ -86,7 +87,10 @@ class OverloadedFunctionDef(CompiledCallableDef, CallableDef):
             assert isinstance(defn, CallableDef)
             available_sigs.append(defn.ty)
             with suppress(GuppyError):
-                return defn.check_call(args, ty, node, ctx)
+                # Checking may mutate the argument nodes in place (e.g. the elements
+                # of a tuple literal are replaced by their coerced form). A failed
+                # attempt must not leak into the next one, so we work on a copy.
+                return defn.check_call(copy.deepcopy(args), ty, node, ctx)
         return self._call_error(args, node, ctx, available_sigs, ty)
 
     def synthesize_call(
@@ -98,7 +102,8 @@ class OverloadedFunctionDef(CompiledCallableDef, CallableDef):
             assert isinstance(defn, CallableDef)
             available_sigs.append(defn.ty)
             with suppress(GuppyError):
-                return defn.synthesize_call(args, node, ctx)
+                # See `check_call`: every variant gets a fresh copy of the arguments
+                return defn.synthesize_call(copy.deepcopy(args), node, ctx)
         return self._call_error(args, node, ctx, available_sigs)
 
     def _call_error(
